@@ -2390,7 +2390,18 @@ class Kconfig(object):
         # A separate helper function is neater than complicating write_config()
         # by passing a flag to it, plus we only need to look at symbols here.
 
-        self._write_if_changed(os.path.join(path, "auto.conf"), self._old_vals_contents())
+        # auto.conf is the only record of the values at the last completed
+        # sync, so it is replaced atomically: if the process dies while
+        # writing, the next sync_deps() still sees the complete old record
+        # (and flags everything that changed since then) instead of a
+        # truncated one.
+        filename = os.path.join(path, "auto.conf")
+        contents = self._old_vals_contents()
+        if self._contents_eq(filename, contents):
+            return
+        with open(filename + ".tmp", "w", encoding=self._encoding) as f:
+            f.write(contents)
+        os.replace(filename + ".tmp", filename)
 
     def _old_vals_contents(self):
         # _write_old_vals() helper. Returns the contents to write as a string.
